@@ -261,8 +261,8 @@ pub fn coset_representative(table: &CosetTable) -> BTreeMap<usize, FreeWord> {
     while let Some(i) = queue.pop_front() {
         let w = result[&i].clone();
 
-        for k in 0..table.len() {
-            for g in table.all_gens() {
+        for g in table.all_gens() {
+            if let Some(k) = table.get(i, g) {
                 if !result.contains_key(&k) {
                     result.insert(k, &w * g);
                     queue.push_back(k);
